@@ -64,7 +64,7 @@ type DFA struct {
 	nfa       *nfa.NFA
 	config    Config
 	prefilter prefilter.Prefilter
-	pikevm    *nfa.PikeVM // NFA fallback — may be shared with Engine (Issue #158)
+	pikevm    *nfa.PikeVM // Set by SetPikeVM only; searches use the per-cache PikeVM (fallbackPikeVM)
 
 	// byteClasses maps bytes to equivalence classes for alphabet reduction.
 	// Bytes in the same class have identical transitions in all DFA states.
@@ -242,7 +242,7 @@ func (d *DFA) SearchAtAnchored(cache *DFACache, haystack []byte, at int) int {
 	// Get ANCHORED start state (requires match to start exactly at 'at')
 	currentState := d.getStartState(cache, haystack, at, true)
 	if currentState == nil {
-		return d.nfaFallbackAnchored(haystack, at)
+		return d.nfaFallbackAnchored(cache, haystack, at)
 	}
 
 	lastMatch := -1
@@ -271,14 +271,14 @@ func (d *DFA) SearchAtAnchored(cache *DFACache, haystack []byte, at int) int {
 		case InvalidState:
 			currentState = cache.getState(sid)
 			if currentState == nil {
-				return d.nfaFallbackAnchored(haystack, at)
+				return d.nfaFallbackAnchored(cache, haystack, at)
 			}
 			nextState, err := d.determinize(cache, currentState, b)
 			if err != nil {
 				if isCacheCleared(err) {
 					currentState = d.getStartState(cache, haystack, pos, true)
 					if currentState == nil {
-						return d.nfaFallbackAnchored(haystack, at)
+						return d.nfaFallbackAnchored(cache, haystack, at)
 					}
 					sid = currentState.id
 					ft = cache.flatTrans
@@ -286,7 +286,7 @@ func (d *DFA) SearchAtAnchored(cache *DFACache, haystack []byte, at int) int {
 					pos--
 					continue
 				}
-				return d.nfaFallbackAnchored(haystack, at)
+				return d.nfaFallbackAnchored(cache, haystack, at)
 			}
 			if nextState == nil {
 				return lastMatch
@@ -599,7 +599,7 @@ func (d *DFA) searchEarliestMatch(cache *DFACache, haystack []byte, startPos int
 	currentState := d.getStartStateForUnanchored(cache, haystack, startPos)
 	if currentState == nil {
 		// Fallback to NFA using SearchAt to preserve absolute positions
-		start, end, matched := d.pikevm.SearchAt(haystack, startPos)
+		start, end, matched := d.fallbackPikeVM(cache).SearchAt(haystack, startPos)
 		return matched && start >= 0 && end >= start
 	}
 
@@ -717,7 +717,7 @@ func (d *DFA) searchEarliestMatch(cache *DFACache, haystack []byte, startPos int
 					pos = candidate
 					newStart := d.getStartStateForUnanchored(cache, haystack, pos)
 					if newStart == nil {
-						start, end, matched := d.pikevm.SearchAt(haystack, startPos)
+						start, end, matched := d.fallbackPikeVM(cache).SearchAt(haystack, startPos)
 						return matched && start >= 0 && end >= start
 					}
 					sid = newStart.id
@@ -746,7 +746,7 @@ func (d *DFA) searchEarliestMatch(cache *DFACache, haystack []byte, startPos int
 		// Try lazy acceleration detection if not yet checked
 		currentState = cache.getState(sid)
 		if currentState == nil {
-			start, end, matched := d.pikevm.SearchAt(haystack, startPos)
+			start, end, matched := d.fallbackPikeVM(cache).SearchAt(haystack, startPos)
 			return matched && start >= 0 && end >= start
 		}
 		d.tryDetectAccelerationWithCache(currentState, cache)
@@ -787,7 +787,7 @@ func (d *DFA) searchEarliestMatch(cache *DFACache, haystack []byte, startPos int
 			// Determinize on demand
 			nextState, err := d.determinize(cache, currentState, b)
 			if err != nil {
-				start, end, matched := d.pikevm.SearchAt(haystack, startPos)
+				start, end, matched := d.fallbackPikeVM(cache).SearchAt(haystack, startPos)
 				return matched && start >= 0 && end >= start
 			}
 			if nextState == nil {
@@ -829,7 +829,7 @@ func (d *DFA) searchEarliestMatch(cache *DFACache, haystack []byte, startPos int
 		pos = candidate
 		newStart := d.getStartStateForUnanchored(cache, haystack, pos)
 		if newStart == nil {
-			start, end, matched := d.pikevm.SearchAt(haystack, startPos)
+			start, end, matched := d.fallbackPikeVM(cache).SearchAt(haystack, startPos)
 			return matched && start >= 0 && end >= start
 		}
 		sid = newStart.id
@@ -862,7 +862,7 @@ func (d *DFA) searchEarliestMatchAnchored(cache *DFACache, haystack []byte, star
 	currentState := d.getStartState(cache, haystack, startPos, true)
 	if currentState == nil {
 		// Fallback to NFA with anchored search
-		start, end, matched := d.pikevm.SearchAt(haystack, startPos)
+		start, end, matched := d.fallbackPikeVM(cache).SearchAt(haystack, startPos)
 		// For anchored: match must start exactly at startPos
 		return matched && start == startPos && end >= start
 	}
@@ -897,7 +897,7 @@ func (d *DFA) searchEarliestMatchAnchored(cache *DFACache, haystack []byte, star
 		case InvalidState:
 			currentState = cache.getState(sid)
 			if currentState == nil {
-				start, end, matched := d.pikevm.SearchAt(haystack, startPos)
+				start, end, matched := d.fallbackPikeVM(cache).SearchAt(haystack, startPos)
 				return matched && start == startPos && end >= start
 			}
 			nextState, err := d.determinize(cache, currentState, b)
@@ -905,7 +905,7 @@ func (d *DFA) searchEarliestMatchAnchored(cache *DFACache, haystack []byte, star
 				if isCacheCleared(err) {
 					currentState = d.getStartState(cache, haystack, pos, true)
 					if currentState == nil {
-						start, end, matched := d.pikevm.SearchAt(haystack, startPos)
+						start, end, matched := d.fallbackPikeVM(cache).SearchAt(haystack, startPos)
 						return matched && start == startPos && end >= start
 					}
 					sid = currentState.id
@@ -914,7 +914,7 @@ func (d *DFA) searchEarliestMatchAnchored(cache *DFACache, haystack []byte, star
 					pos--
 					continue
 				}
-				start, end, matched := d.pikevm.SearchAt(haystack, startPos)
+				start, end, matched := d.fallbackPikeVM(cache).SearchAt(haystack, startPos)
 				return matched && start == startPos && end >= start
 			}
 			if nextState == nil {
@@ -959,7 +959,7 @@ func (d *DFA) findWithPrefilterAt(cache *DFACache, haystack []byte, startAt int)
 	// Get start state based on look-behind context at candidate position
 	currentState := d.getStartStateForUnanchored(cache, haystack, pos)
 	if currentState == nil {
-		return d.nfaFallback(haystack, startAt)
+		return d.nfaFallback(cache, haystack, startAt)
 	}
 
 	// Track last match position for leftmost-longest semantics
@@ -981,7 +981,7 @@ func (d *DFA) findWithPrefilterAt(cache *DFACache, haystack []byte, startAt int)
 				pos = candidate
 				newStart := d.getStartStateForUnanchored(cache, haystack, pos)
 				if newStart == nil {
-					return d.nfaFallback(haystack, startAt)
+					return d.nfaFallback(cache, haystack, startAt)
 				}
 				sid = newStart.id
 				ft = cache.flatTrans
@@ -1006,21 +1006,21 @@ func (d *DFA) findWithPrefilterAt(cache *DFACache, haystack []byte, startAt int)
 		case InvalidState:
 			currentState = cache.getState(sid)
 			if currentState == nil {
-				return d.nfaFallback(haystack, startAt)
+				return d.nfaFallback(cache, haystack, startAt)
 			}
 			nextState, err := d.determinize(cache, currentState, haystack[pos])
 			if err != nil {
 				if isCacheCleared(err) {
 					newStart := d.getStartStateForUnanchored(cache, haystack, pos)
 					if newStart == nil {
-						return d.nfaFallback(haystack, startAt)
+						return d.nfaFallback(cache, haystack, startAt)
 					}
 					sid = newStart.id
 					ft = cache.flatTrans
 					ftLen = len(ft)
 					continue
 				}
-				return d.nfaFallback(haystack, startAt)
+				return d.nfaFallback(cache, haystack, startAt)
 			}
 			if nextState == nil {
 				// Dead state — prefilter skip
@@ -1035,7 +1035,7 @@ func (d *DFA) findWithPrefilterAt(cache *DFACache, haystack []byte, startAt int)
 				pos = candidate
 				newStart := d.getStartStateForUnanchored(cache, haystack, pos)
 				if newStart == nil {
-					return d.nfaFallback(haystack, startAt)
+					return d.nfaFallback(cache, haystack, startAt)
 				}
 				sid = newStart.id
 				ft = cache.flatTrans
@@ -1059,7 +1059,7 @@ func (d *DFA) findWithPrefilterAt(cache *DFACache, haystack []byte, startAt int)
 			pos = candidate
 			newStart := d.getStartStateForUnanchored(cache, haystack, pos)
 			if newStart == nil {
-				return d.nfaFallback(haystack, startAt)
+				return d.nfaFallback(cache, haystack, startAt)
 			}
 			sid = newStart.id
 			ft = cache.flatTrans
@@ -1134,7 +1134,7 @@ func (d *DFA) searchAt(cache *DFACache, haystack []byte, startPos int) int { //n
 	// Get appropriate start state based on look-behind context
 	currentState := d.getStartStateForUnanchored(cache, haystack, startPos)
 	if currentState == nil {
-		return d.nfaFallback(haystack, startPos)
+		return d.nfaFallback(cache, haystack, startPos)
 	}
 
 	// Track last match position for leftmost-longest semantics.
@@ -1239,7 +1239,7 @@ func (d *DFA) searchAt(cache *DFACache, haystack []byte, startPos int) int { //n
 					pos = candidate
 					newStart := d.getStartStateForUnanchored(cache, haystack, pos)
 					if newStart == nil {
-						return d.nfaFallback(haystack, startPos)
+						return d.nfaFallback(cache, haystack, startPos)
 					}
 					sid = newStart.id
 					ft = cache.flatTrans
@@ -1268,7 +1268,7 @@ func (d *DFA) searchAt(cache *DFACache, haystack []byte, startPos int) int { //n
 		// Resolve State for slow path (acceleration, word boundary, determinize).
 		currentState = cache.getState(sid)
 		if currentState == nil {
-			return d.nfaFallback(haystack, startPos)
+			return d.nfaFallback(cache, haystack, startPos)
 		}
 		d.tryDetectAccelerationWithCache(currentState, cache)
 
@@ -1300,7 +1300,7 @@ func (d *DFA) searchAt(cache *DFACache, haystack []byte, startPos int) int { //n
 		case InvalidState:
 			nextState, err := d.determinize(cache, currentState, b)
 			if err != nil {
-				return d.nfaFallback(haystack, startPos)
+				return d.nfaFallback(cache, haystack, startPos)
 			}
 			if nextState == nil {
 				return lastMatch
@@ -1688,12 +1688,23 @@ func (d *DFA) getStartStateForUnanchored(cache *DFACache, haystack []byte, pos i
 	return d.getStartState(cache, haystack, pos, false)
 }
 
+// fallbackPikeVM returns the PikeVM used by the NFA fallback of searches that run on cache.
+// A PikeVM rewrites its own scratch during every search, and the DFA is shared by all
+// goroutines, so the instance lives in the per-goroutine DFACache (created on first use,
+// then reused: no allocation per search) instead of in the DFA.
+func (d *DFA) fallbackPikeVM(cache *DFACache) *nfa.PikeVM {
+	if cache.pikevm == nil {
+		cache.pikevm = nfa.NewPikeVMLazy(d.nfa)
+	}
+	return cache.pikevm
+}
+
 // nfaFallback executes the NFA (PikeVM) when DFA gives up.
 // This ensures correctness even when cache is full or pattern is too complex.
-func (d *DFA) nfaFallback(haystack []byte, startPos int) int {
+func (d *DFA) nfaFallback(cache *DFACache, haystack []byte, startPos int) int {
 	// Search from startPos to end using SearchAt to preserve absolute positions
 	// This is critical for anchor handling (^ should only match at position 0)
-	_, end, matched := d.pikevm.SearchAt(haystack, startPos)
+	_, end, matched := d.fallbackPikeVM(cache).SearchAt(haystack, startPos)
 	if !matched {
 		return -1
 	}
@@ -1706,8 +1717,8 @@ func (d *DFA) nfaFallback(haystack []byte, startPos int) int {
 // exactly at startPos. The leftmost match found by the unanchored PikeVM search
 // begins at startPos iff some match begins there, and it then is the
 // leftmost-first match from startPos.
-func (d *DFA) nfaFallbackAnchored(haystack []byte, startPos int) int {
-	start, end, matched := d.pikevm.SearchAt(haystack, startPos)
+func (d *DFA) nfaFallbackAnchored(cache *DFACache, haystack []byte, startPos int) int {
+	start, end, matched := d.fallbackPikeVM(cache).SearchAt(haystack, startPos)
 	if !matched || start != startPos {
 		return -1
 	}
@@ -1724,7 +1735,7 @@ func (d *DFA) matchesEmpty(cache *DFACache) bool {
 	}
 
 	// Fall back to NFA for empty match check (handles word boundaries, etc.)
-	start, end, matched := d.pikevm.Search([]byte{})
+	start, end, matched := d.fallbackPikeVM(cache).Search([]byte{})
 	return matched && start == 0 && end == 0
 }
 
